@@ -35,16 +35,22 @@ def warmup():
 
 def main():
     warm = os.environ.get('ESRSIM_WARM', '1') == '1'
-    rfd = os.dup(0)
-    wfd = os.dup(1)
-    os.dup2(2, 1)
-    devnull = os.open(os.devnull, os.O_RDONLY)
-    os.dup2(devnull, 0)
+    helper = '--helper' in sys.argv
+    if not helper:
+        rfd = os.dup(0)
+        wfd = os.dup(1)
+        os.dup2(2, 1)
+        devnull = os.open(os.devnull, os.O_RDONLY)
+        os.dup2(devnull, 0)
     import csv, pprint, itertools, ast  # noqa: F401,E401
     import numpy, sympy, scipy.optimize, scipy.integrate, scipy.stats, pandas, prettytable  # noqa: F401,E401
     import psutil, pympler.asizeof, numdifftools, astropy.constants, astropy.units, mpmath  # noqa: F401,E401
     if warm:
         warmup()
+    if helper:
+        from esrsim import helpers
+        helpers.helper_main()
+        return
     gc.collect()
     gc.freeze()
     wid = int(os.environ.get('ESRSIM_WID', '0'))
